@@ -677,10 +677,13 @@ def _interval_tabulate(ctx, m, fn) -> bool:
     bad: list[str] = []
     n = 0
     try:
-        for form in ("start/end", "start/duration", "duration/end"):
+        for form in ("start/end", "start/duration", "duration/end", "start/zero duration", "zero duration/end"):
             for opt in ({}, {"tz": TZm}):
                 a, b = S(_kind="datetime", _id="A", tzinfo=None), S(_kind="datetime", _id="B", tzinfo=None)
-                dur = S(_kind="duration", days=99, seconds=98, total_seconds=lambda: 97.0, **comps)
+                zero = "zero" in form
+                form = form.replace("zero ", "")
+                dur = S(_kind="duration", days=0 if zero else 99, seconds=0 if zero else 98, total_seconds=lambda z=zero: 0.0 if z else 97.0, _types=(__import__("datetime").timedelta,),
+                        _truth=not zero, **comps)
                 parsed = S(_iv=True, start=a if form != "duration/end" else None, end=b if form != "start/duration" else None,
                            duration=None if form == "start/end" else dur)
                 glob = {"base_parse": minieval.ClassStub(_new=lambda *a_, **k_: parsed, _isa=lambda v: False),
@@ -696,7 +699,7 @@ def _interval_tabulate(ctx, m, fn) -> bool:
                 got = minieval.call(fn, ["x/y"], dict(opt), {**funcs, "$globals": glob})
                 n += 1
                 tzw = opt.get("tz", UTCm)
-                label = f"{form}{' with tz=' if opt else ''}"
+                label = f"{form}{' (a duration of length zero)' if zero else ''}{' with tz=' if opt else ''}"
                 iv = getattr(got, "_interval", None)
                 if iv is None:
                     bad.append(f"{label}: does not return pendulum.interval(...)")
